@@ -9,7 +9,7 @@ RELEASE = True          # debug and release builds of the harness (debug_assert!
 RULE = ("VALIDATE x<bytes>: bytes of the Python reference encoder for bundles drawn from the property's rule space (any subset of "
         "the nine defined control flags and the six bits of the reserved mask, creation time zero/non-zero, anonymous/named source, "
         "block lists of up to 4 blocks from {payload, previous node, bundle age, hop count, unknown} x numbers {1,2,3} x status-report "
-        "flag) and random C01-domain bundles with one injected rule violation; the oracle is the rule list of the property text; "
+        "flag) and random C01-domain bundles with one injected rule violation (incl. an ipn endpoint ID with node number 0 as destination, source, report-to or previous node); the oracle is the rule list of the property text; "
         "bundles hitting the stale reserved masks are counted, not judged; non-trivial = distinct decodable input")
 TRUSTED_BASE = CODEC_TRUSTED + ["bitflags 2.x from_bits_truncate/contains semantics are modelled (Model/Types.v has_bits)"]
 ASSUMPTIONS = ["stale reserved-bits masks (bundle flags containing all of 0xE218, block flags containing all of 0xF0) are don't-care"]
@@ -21,10 +21,23 @@ KINDS = ["payload", "prev", "age", "hop", "unknown"]
 KTYPE = {"payload": 1, "prev": 6, "age": 7, "hop": 10, "unknown": 192}
 
 
+def eid_ok(e):
+    """'all endpoint IDs are well formed': an ipn node number is at least 1, the null endpoint is [1, 0]"""
+    if e[0] == "IPN":
+        return e[1] == 2 and e[2] >= 1
+    if e[0] == "NONE":
+        return e[1] == 1 and e[2] == 0
+    return True
+
+
 def rules(b):
     p, cs = b["p"], b["cs"]
     f = p["flags"]
     if p["ver"] != 7:
+        return False
+    if not (eid_ok(p["dst"]) and eid_ok(p["src"]) and eid_ok(p["rpt"])):
+        return False
+    if any(c["type"] == 6 and c["data"][0] == "PREV" and not eid_ok(c["data"][1]) for c in cs):
         return False
     if (f & 1) and (f & 4):
         return False
@@ -82,8 +95,20 @@ def _space_bundle(rng):
 
 def _violate(rng, b):
     """inject one rule violation into a valid-looking C01-domain bundle"""
-    k = rng.randrange(9)
+    k = rng.randrange(10)
     p, cs = b["p"], b["cs"]
+    if k == 9:
+        # an endpoint ID that is not well formed (ipn node number 0) in one of the four places an endpoint ID can stand; a decoder
+        # that already refuses it has rejected the bundle as well (DECERR is accepted for these lines: b["bad_eid"])
+        bad = ("IPN", 2, 0, rng.choice([0, 1, 7, 2 ** 64 - 1]))
+        where = rng.choice(["dst", "src", "rpt", "rpt", "prev"])
+        if where == "prev":
+            b["cs"] = [c for c in cs if c["type"] != 6]
+            b["cs"].insert(0, dict(type=6, num=9003, flags=0, crc=("N",), data=("PREV", bad)))
+        else:
+            p[where] = bad
+        b["bad_eid"] = True
+        return b
     if k == 0:
         p["ver"] = rng.choice([0, 6, 8, 255, 2 ** 32 - 1])
     elif k == 1:
@@ -169,6 +194,8 @@ def oracle(line, out, mode):
     b = _B.get(line)
     if out in ("PANIC", "ABORT", "CRASH"):
         return "validate aborts"
+    if b is not None and b.get("bad_eid") and out == "DECERR":
+        return None          # refused by the decoder already: rejected
     if b is None or out == "DECERR":
         return None if out != "DECERR" or b is None else "generated bundle does not decode"
     if dont_care(b):
